@@ -131,7 +131,7 @@ theorem C13_nodelim_line (cfg : Cfg) (st : PState) (raw : Str) (key : Str) (b t 
   have htd : cfg.delim.contains t = false := by
     have : t ∈ more := (List.dropWhile_sublist _).subset (by rw [ht]; simp)
     exact hmore t this
-  unfold parseValue
+  unfold parseValue skipDelim
   have hme : more.isEmpty = false := by cases more <;> simp_all
   simp only [hme, Bool.false_eq_true, if_false, ht, hw, Bool.not_false, Bool.and_self, if_true, htd]
 
